@@ -32,7 +32,7 @@ def run(ctx):
         if a.get("status") != "ok":
             continue
         xb = a["log"]["momtrop_feynman_parameter"]
-        if not SC.finite(xb) or not SC.finite(a["meta"]["l"]):
+        if not SC.finite(xb) or not SC.finite(a["meta"]["l"]) or not SC.finite([a["u"]]):
             ctx.count("nonfinite_parameters_skipped"); continue
         x = SC.fr_list(xb)
         ex = SC.exact_quantities(s, x)
